@@ -391,3 +391,197 @@ def protoVerdict (newEnv : Env) (new old : List EStep) : Sev :=
   protoLoop newEnv old new 0 (if removed then .err else .ok)
 
 end Yardl.Evo
+
+/-! ### value conversion between versions (C05)
+
+  `conv reading src dst v`: the value of type `dst` that the generated C++ produces from the value `v`
+  of type `src` — `reading = true`: `src` is the previous version's type and `dst` the latest one
+  (reader of the latest version given an old stream); `reading = false`: `src` is the latest version's
+  type and `dst` the previous one (writer of the latest version asked for `Version::<label>`).
+  Mirrors writeTypeConversion / writeCompatibilitySerializers (cpp/binary/binary.go).
+  Primitive conversions that involve floating point (and numbers <-> strings other than canonical
+  decimal integers) are not modelled: `conv` answers `unsupported` there. -/
+
+namespace Yardl.Evo
+open Yardl
+
+inductive CRes
+  | ok (v : Val)
+  /-- the generated code throws std::runtime_error -/
+  | err (msg : String)
+  | unsupported (why : String)
+  deriving Inhabited
+
+def zeroPrim : Prim → Val
+  | .bool => .bool false
+  | .float32 => .f32 0 | .float64 => .f64 0
+  | .complexfloat32 => .c32 0 0 | .complexfloat64 => .c64 0 0
+  | .string => .str []
+  | _ => .int 0
+
+/-- `T x = {}` in C++ -/
+def zero : Nat → ETy → Val
+  | 0, _ => .none
+  | fuel + 1, t =>
+    match t with
+    | .prim p => zeroPrim p
+    | .enum _ _ _ _ => .int 0
+    | .record _ fs => .record (fs.toList.map fun e => zero fuel e.2)
+    | .optional _ => .none
+    | .union cs =>
+      (match cs.toList with
+       | none :: _ => .none
+       | some t :: _ => .case 0 (zero fuel t)
+       | [] => .none)
+    | .vector t len =>
+      (match len with
+       | some n => .list (List.replicate n (zero fuel t))
+       | none => .list [])
+    | .array t k =>
+      (match k with
+       | .fixed dims => .arr dims (List.replicate (dims.foldl (· * ·) 1) (zero fuel t))
+       | .rank n => .arr (List.replicate n 0) []
+       | .dynamic => .arr [] [zero fuel t])   -- a default xt::xarray is 0-dimensional and holds one element
+    | .map _ _ => .map []
+
+def digitsOk (bs : List UInt8) : Bool := !bs.isEmpty && bs.all fun b => 48 ≤ b.toNat && b.toNat ≤ 57
+
+def parseDec (bs : List UInt8) : Option Int :=
+  match bs with
+  | 45 :: r => if digitsOk r then some (-(Int.ofNat (r.foldl (fun a b => a * 10 + (b.toNat - 48)) 0))) else none
+  | r => if digitsOk r then some (Int.ofNat (r.foldl (fun a b => a * 10 + (b.toNat - 48)) 0)) else none
+
+def showDec (i : Int) : List UInt8 := (toString i).toUTF8.toList
+
+/-- primitive conversions that are modelled: integer <-> integer with the generated overflow checks,
+    integer <-> string through canonical decimal text, identical primitives -/
+def convPrim (src dst : Prim) (v : Val) : CRes :=
+  if src = dst then .ok v
+  else match pkind src, pkind dst, v with
+    | .integer, .integer, .int i =>
+      (match dst.range with
+       | some (lo, hi) => if lo ≤ i && i ≤ hi then .ok (.int i) else .err "Numeric overflow"
+       | none => .unsupported "range")
+    | .integer, .string, .int i => .ok (.str (showDec i))
+    | .string, .integer, .str bs =>
+      (match parseDec bs, dst.range with
+       | some i, some (lo, hi) => if lo ≤ i && i ≤ hi then .ok (.int i) else .unsupported "out-of-range text (std::sto* narrowing)"
+       | none, _ => if bs.all (fun b => b.toNat > 57 && b.toNat < 127) then .err "Unable to convert string" else .unsupported "non-canonical text"
+       | _, none => .unsupported "range")
+    | _, _, _ => .unsupported "floating point / complex conversion"
+
+def hasNullL (cs : List (Option ETy)) : Bool := cs.any Option.isNone
+
+/-- index in the full case list of the non-null case number `i` (as `Val.case` counts them) -/
+def toFull (cs : List (Option ETy)) (i : Nat) : Nat := if hasNullL cs then i + 1 else i
+def ofFull (cs : List (Option ETy)) (j : Nat) : Nat := if hasNullL cs then j - 1 else j
+
+section
+variable (f : ETy → ETy → Cls)
+
+/-- the pairs (index in new, index in old) the greedy matching of detectUnionChanges finds -/
+def unionPairsLoop (olds : List (Option ETy)) : List (Option ETy) → Nat → List Bool → List (Nat × Nat) → List (Nat × Nat)
+  | [], _, _, acc => acc.reverse
+  | c :: cs, i, om, acc =>
+    match findMatch f c olds om 0 with
+    | some (j, _) => unionPairsLoop olds cs (i + 1) (setTrue om j) ((i, j) :: acc)
+    | none => unionPairsLoop olds cs (i + 1) om acc
+
+def unionPairs (news olds : List (Option ETy)) : List (Nat × Nat) :=
+  unionPairsLoop f olds news 0 (olds.map fun _ => false) []
+
+/-- index of the first non-null case accepted by `g` -/
+def firstCase (g : ETy → Cls) : List (Option ETy) → Nat → Option Nat
+  | [], _ => none
+  | none :: r, i => firstCase g r (i + 1)
+  | some t :: r, i => if (g t).matches then some i else firstCase g r (i + 1)
+end
+
+def mapM' (g : Val → CRes) : List Val → List Val → CRes
+  | [], acc => .ok (.list acc.reverse)
+  | v :: r, acc =>
+    match g v with
+    | .ok x => mapM' g r (x :: acc)
+    | e => e
+
+def CRes.map (f : Val → Val) : CRes → CRes
+  | .ok v => .ok (f v)
+  | e => e
+
+def conv (reading : Bool) : Nat → ETy → ETy → Val → CRes
+  | 0, _, _, _ => .unsupported "fuel"
+  | fuel + 1, src, dst, v =>
+    let c := conv reading fuel
+    -- cmp is always asked as (latest, previous)
+    let k (a b : ETy) : Cls := if reading then cmp (depth a + depth b) b a else cmp (depth a + depth b) a b
+    match src, dst, v with
+    | .prim a, .prim b, v => convPrim a b v
+    | .enum _ _ _ _, .enum _ _ _ _, v => .ok v
+    | .record _ sfs, .record _ dfs, .record vs =>
+      let svals := sfs.toList.zip vs
+      let rec go : List (Nat × ETy) → List Val → CRes
+        | [], acc => .ok (.record acc.reverse)
+        | (n, dt) :: r, acc =>
+          match svals.find? (fun e => e.1.1 == n) with
+          | some ((_, st), sv) =>
+            (match c st dt sv with
+             | .ok x => go r (x :: acc)
+             | e => e)
+          | none => go r (zero (depth dt + 1) dt :: acc)
+      go dfs.toList []
+    | .vector st _, .vector dt _, .list vs => mapM' (c st dt) vs []
+    | .array _ _, .array _ _, v => .ok v
+    | .map _ _, .map _ _, v => .ok v
+    | .optional st, .optional dt, v =>
+      (match v with
+       | .some x => (c st dt x).map .some
+       | _ => .ok .none)
+    -- optional <-> union
+    | .optional st, .union dcs, v =>
+      (match v with
+       | .some x =>
+         (match firstCase (fun t => k st t) (dcs.toList.drop 1) 1 with
+          | some j => (c st ((dcs.toList.getD j none).getD st) x).map (.case (ofFull dcs.toList j))
+          | none => .unsupported "no matching union case")
+       | _ => .ok .none)
+    | .union scs, .optional dt, v =>
+      (match v with
+       | .case i x =>
+         (match firstCase (fun t => k t dt) (scs.toList.drop 1) 1 with
+          | some j => if toFull scs.toList i = j then (c ((scs.toList.getD j none).getD dt) dt x).map .some else .ok .none
+          | none => .unsupported "no matching union case")
+       | _ => .ok .none)
+    | .union scs, .union dcs, v =>
+      let pairs := if reading then unionPairs (fun a b => cmp (depth a + depth b) a b) dcs.toList scs.toList
+                   else (unionPairs (fun a b => cmp (depth a + depth b) a b) scs.toList dcs.toList).map fun p => (p.2, p.1)
+      -- pairs : (index in dst, index in src)
+      (match v with
+       | .case i x =>
+         (match pairs.find? (fun p => p.2 == toFull scs.toList i) with
+          | some (j, si) =>
+            (match scs.toList.getD si none, dcs.toList.getD j none with
+             | some st, some dt => (c st dt x).map (.case (ofFull dcs.toList j))
+             | _, _ => .unsupported "null paired with a type")
+          | none => .err "Source type incompatible with target union type")
+       | _ =>
+         if hasNullL dcs.toList then .ok .none else .err "Source type incompatible with target union type")
+    -- scalar <-> optional / union
+    | .optional st, dt, v =>
+      (match v with
+       | .some x => c st dt x
+       | _ => .ok (zero (depth dt + 1) dt))
+    | st, .optional dt, v => (c st dt v).map .some
+    | .union scs, dt, v =>
+      (match v with
+       | .case i x =>
+         (match firstCase (fun t => k t dt) scs.toList 0 with
+          | some j => if toFull scs.toList i = j then c ((scs.toList.getD j none).getD dt) dt x else .ok (zero (depth dt + 1) dt)
+          | none => .unsupported "no matching union case")
+       | _ => .ok (zero (depth dt + 1) dt))
+    | st, .union dcs, v =>
+      (match firstCase (fun t => k st t) dcs.toList 0 with
+       | some j => (c st ((dcs.toList.getD j none).getD st) v).map (.case (ofFull dcs.toList j))
+       | none => .unsupported "no matching union case")
+    | _, _, _ => .unsupported "shape"
+
+end Yardl.Evo
